@@ -13,7 +13,7 @@
 (* begin..repeat, begin..while..repeat, do..loop with I J K, break inside   *)
 (* if/case bodies nested in begin..repeat / after `while` / do..loop,       *)
 (* `: name .. ;` (nested, recursive, redefined), `local x` in definitions,  *)
-(* `var x` at top level, `! x`, `[ .. ]`.                                   *)
+(* `var x` at top level, `! x`, `[ .. ]`, `late name` (bound at first call). *)
 (***************************************************************************)
 EXTENDS Values, TLC
 
@@ -79,8 +79,15 @@ ResolveLocal(toks, i, name) ==
   ELSE LET c == {j \in LocalDecls(toks, d, i) : j + 1 <= Len(toks) /\ W(toks, j + 1) = name /\ j + 1 < i} IN
        IF c = {} THEN 0 ELSE CHOOSE j \in c : \A k \in c : k <= j
 ResolveGlobal(toks, i, name) ==
-  LET c == {j \in 1..(i - 2) : W(toks, j) \in {":", "var"} /\ W(toks, j + 1) = name} IN
+  LET c == {j \in 1..(i - 2) : W(toks, j) \in {":", "var", "late"} /\ W(toks, j + 1) = name} IN
   IF c = {} THEN 0 ELSE CHOOSE j \in c : \A k \in c : k <= j
+\* `late name` declares a word that is bound when it is first CALLED, to the latest declaration of the name the
+\* dictionary holds then.  A source is compiled as a whole before its top-level code runs, so within one source that is
+\* the last declaration of the name in the text (0: only `late` declarations - the word would call itself for ever).
+LateTarget(toks, name) ==
+  LET c == {j \in 1..(Len(toks) - 1) : W(toks, j) \in {":", "var", "late"} /\ W(toks, j + 1) = name}
+      j == CHOOSE x \in c : \A k \in c : k <= x IN
+  IF W(toks, j) = "late" THEN 0 ELSE j
 \* static slot number of the declaration at j (how many `local` precede it in its definition)
 DeclIndex(toks, j) == LET d == EnclosingDef(toks, j, 0) IN Cardinality({k \in LocalDecls(toks, d, j) : k < j})
 
@@ -239,6 +246,7 @@ SStep(toks, s0) ==
               \* judged only when declarations are initialised in textual order (5.19)
               IF ~((have = 0 /\ k = Len(f.locals)) \/ (have # 0 /\ have = k + 1)) THEN [s EXCEPT !.skip = TRUE]
               ELSE [SPopN(s, 1) EXCEPT !.rs[Len(s.rs)].locals = SetPair(@, p, s.ds[N(s)]), !.pos = p + 2]
+    [] w = "late" -> [s EXCEPT !.pos = p + 2]
     [] w = "var" ->
          IF N(s) < 1 THEN SFail(s, "Underflow", 1)
          ELSE [SPopN(s, 1) EXCEPT !.glob = SetPair(@, p, s.ds[N(s)]), !.pos = p + 2]
@@ -261,8 +269,10 @@ SStep(toks, s0) ==
                     IF k = 0 /\ d >= Len(Last(s.rs).locals) THEN SFail(s, "Local", 0)
                     ELSE IF k # d + 1 THEN [s EXCEPT !.skip = TRUE]
                     ELSE Adv(SPush(s, Last(s.rs).locals[k][2])))
-         ELSE LET g == ResolveGlobal(toks, p, w) IN
-              IF g # 0 THEN
+         ELSE LET g0 == ResolveGlobal(toks, p, w)
+                  g == IF g0 # 0 /\ W(toks, g0) = "late" THEN LateTarget(toks, w) ELSE g0 IN
+              IF g0 # 0 /\ g = 0 THEN [s EXCEPT !.skip = TRUE]
+              ELSE IF g # 0 THEN
                    (IF W(toks, g) = ":" THEN [s EXCEPT !.rs = Append(@, [ret |-> p + 1, locals |-> <<>>]), !.pos = g + 2]
                     ELSE LET k == Lookup(s.glob, g) IN
                          Adv(SPush(s, IF k = 0 THEN NilV ELSE s.glob[k][2])))
@@ -278,15 +288,20 @@ SRun(toks, s, fuel) ==
 
 \* names are resolved when the source is compiled, also in code that is never executed: a program in which some
 \* word resolves to nothing (e.g. a nested definition mentioning a local of the enclosing one) is outside the grammar
-Structural == Openers \cup Closers \cup {"else", "of", "endof", "while", "break", "local", "var", "!"}
-IsName(toks, i) == i > 1 /\ W(toks, i - 1) \in {":", "local", "var", "!"}
+Structural == Openers \cup Closers \cup {"else", "of", "endof", "while", "break", "local", "var", "!", "late"}
+IsName(toks, i) == i > 1 /\ W(toks, i - 1) \in {":", "local", "var", "!", "late"}
 StaticOk(toks) == \A i \in 1..Len(toks) :
-   toks[i].t # "w" \/ W(toks, i) \in Structural \cup Builtins \/ IsName(toks, i)
-   \/ ResolveLocal(toks, i, W(toks, i)) # 0 \/ ResolveGlobal(toks, i, W(toks, i)) # 0
+   /\ toks[i].t # "w" \/ W(toks, i) \in Structural \cup Builtins \/ IsName(toks, i)
+      \/ ResolveLocal(toks, i, W(toks, i)) # 0 \/ ResolveGlobal(toks, i, W(toks, i)) # 0
+   /\ W(toks, i) = "!" =>           \* `! name`: the name must denote a variable where it is written
+         /\ i < Len(toks)
+         /\ LET g == ResolveGlobal(toks, i, W(toks, i + 1)) IN g # 0 /\ W(toks, g) = "var"
 SEval(toks, fuel) == IF StaticOk(toks) THEN SRun(toks, SBoot, fuel) ELSE [SBoot EXCEPT !.skip = TRUE]
 
 \* the values of all top-level variables, by name (latest declaration of each name)
-VarNames(toks) == {W(toks, j + 1) : j \in {k \in 1..(Len(toks) - 1) : W(toks, k) = "var"}}
+\* (names whose last declaration is a `var`: those are what a lookup by name finds after the run)
+VarNames(toks) == {nm \in {W(toks, j + 1) : j \in {k \in 1..(Len(toks) - 1) : W(toks, k) = "var"}} :
+                     W(toks, ResolveGlobal(toks, Len(toks) + 2, nm)) = "var"}
 VarValue(toks, s, name) ==
   LET g == ResolveGlobal(toks, Len(toks) + 2, name)  k == Lookup(s.glob, g) IN
   IF k = 0 THEN NilV ELSE s.glob[k][2]
